@@ -74,6 +74,7 @@ type Exec struct {
 	lemmaKey string
 	pendingBinds []Val
 	pendingFn *ssa.Function
+	callReqHit map[*Clause]bool
 	prop string // property being decided: only clauses tagged with it (or untagged) are active
 }
 
@@ -395,8 +396,12 @@ func (ex *Exec) runBlock(st *State, fr *Frame, b *ssa.BasicBlock, prev *ssa.Basi
 			st.path = append(st.path, fmt.Sprintf("loop%d.enter", n))
 			ex.checkInvariants(st, fr, b, n, spec, "inv-init")
 			ex.loopFrame(st, fr, n, "inv-init", true)
+			dirty := st.epochDirty
 			ex.havocLoop(st, fr, b)
 			ex.loopFrame(st, fr, n, "", false)
+			if ex.topFrame != nil && !ex.topFrame.all && fr.depth == 0 {
+				st.epochDirty = dirty // this havoc is covered by the assumed loop frame
+			}
 			env := ex.invEnv(st, fr)
 			env.loopHead = b
 			for _, inv := range spec.Invariants {
@@ -906,6 +911,8 @@ func (ex *Exec) fieldRegion(st *State, obj Term, structTy types.Type, f *types.V
 		st.assume(Eq(mkTerm("(rg.kind "+t.S+")", SortInt), IntLit(int64(kind))))
 		st.assume(Eq(mkTerm("(rg.owner "+t.S+")", SortInt), obj))
 		st.assume(Gt(t, IntLit(0)))
+		// an embedded region is as old as the object that contains it
+		st.assume(Eq(Ge(t, mkTerm("alloc0", SortInt)), Ge(obj, mkTerm("alloc0", SortInt))))
 	}
 	return t
 }
